@@ -77,6 +77,7 @@ type zzClientEnv struct {
 	closed *zzFlag
 	conn   *zzFlag
 	disc   *zzFlag
+	attempt0 int
 }
 
 // zzArbitraryClient builds a client in an arbitrary state satisfying the invariant J:
@@ -120,9 +121,18 @@ func zzArbitraryClient() *zzClientEnv {
 	zzverif.Assume(!closed || (n == 0 && !connected))
 	zzverif.Assume(!connected || n > 0)
 	zzverif.Assume(max == 0 || n+inflight <= lim)
+	// position in the current run of failed dials (0 after a success)
+	att := zzverif.Int()
+	zzverif.Assume(att >= 0 && att <= 1000)
+	c.connectAttempt = att
+	e.attempt0 = att
 	e.c = c
 	return e
 }
+
+// attemptKept: a step that establishes no connection does not move the client back in its run of
+// failed dials (the back-off never decreases within a run of failures).
+func (e *zzClientEnv) attemptKept() bool { return e.c.connectAttempt >= e.attempt0 }
 
 func (e *zzClientEnv) exclusive() bool { return e.conn.set != e.disc.set }
 
@@ -320,6 +330,7 @@ func ZZ_C19_Obtain() {
 		zzverif.Reach("dialing")
 	}
 	zzverif.Assert(e.exclusive(), "flags-exclusive")
+	zzverif.Assert(e.attemptKept(), "application-call-restarted-the-back-off")
 }
 
 // ZZ_C19_MaxConns: the channels-target callback never schedules a dial that would take the client
